@@ -217,13 +217,13 @@ class TdmsSegment(object):
             dimension = Uint32(1)
             num_values = Uint64(len(obj.data))
 
-            data_index = [Uint32(20), data_type, dimension, num_values]
-            # For strings, we also need to write the total data size in bytes
+            # For strings, we also need to write the total data size in bytes,
+            # which makes the raw data index 8 bytes longer
             if obj.data_type == String:
                 total_size = object_data_size(obj.data_type, obj.data)
-                data_index.append(Uint64(total_size))
+                return [Uint32(28), data_type, dimension, num_values, Uint64(total_size)]
 
-            return data_index
+            return [Uint32(20), data_type, dimension, num_values]
         else:
             return [Bytes(b'\xFF\xFF\xFF\xFF')]
 
